@@ -3,6 +3,9 @@ package props
 import (
 	"fmt"
 	"os"
+	"strings"
+
+	"github.com/miekg/dns"
 	"testing"
 
 	"pgregory.net/rapid"
@@ -98,6 +101,14 @@ func TestC01(t *testing.T) {
 	if os.Getenv("VERIF_ONLY_REGRESS") != "" {
 		return
 	}
+	if kit.Shard() == 3%kit.NShards() {
+		// one large file through the bulk loader (several sorted buckets): every name
+		// must serve all of its declared records
+		c01Bulk(t)
+		kit.Eval()
+		kit.Class("bulk-builder-file")
+		kit.NonTrivial("bulk-builder-file")
+	}
 	kit.SetRapid(kit.N(480, 12000))
 	rapid.Check(t, kit.Prop("C01", func(t *rapid.T) {
 		w := kit.GenWorld(t, kit.GenOpts{})
@@ -112,4 +123,64 @@ func TestC01(t *testing.T) {
 		kit.ClassN("queries", int64(nq))
 		kit.Sample(map[string]interface{}{"data": string(w.Text()), "first_query": qs[0].q, "client": qs[0].c})
 	}))
+}
+
+type c01BulkCase struct {
+	Names   int    `json:"names"`
+	PerName int    `json:"records_per_name"`
+	Backend string `json:"backend"`
+	Name    string `json:"failing_name,omitempty"`
+}
+
+// c01Bulk: 5200 names x 7 TXT records (36400 records, i.e. more than one
+// 30000-record bucket of the RocksDB bulk loader), compiled in builder mode with
+// v1 and v2 keys; every name is asked and must return exactly its 7 records.
+func c01Bulk(t kit.Fataler) {
+	const names, per = 5200, 7
+	var sb strings.Builder
+	sb.WriteString(".big.example,,a\n")
+	for i := 0; i < names; i++ {
+		for j := 0; j < per; j++ {
+			fmt.Fprintf(&sb, "'n%05d.big.example,t%d-%d,60\n", i, i, j)
+		}
+	}
+	text := []byte(sb.String())
+	for _, b := range []kit.Backend{kit.RDBv1, kit.RDBv2} {
+		cs := c01BulkCase{Names: names, PerName: per, Backend: b.String()}
+		dir := kit.Scratch("c01bulk")
+		p, err := kit.Compile(text, 1, dir, b, kit.CompileOpts{Workers: 4, Builder: true})
+		if err != nil {
+			kit.Fail(t, "C01", "compile-error/bulk", cs, "builder compile: %v", err)
+		}
+		h, err := kit.OpenHandler(p, b, kit.HandlerOpts{})
+		if err != nil {
+			kit.Fail(t, "C01", "compile-error/bulk", cs, "open: %v", err)
+		}
+		for i := 0; i < names; i++ {
+			name := fmt.Sprintf("n%05d.big.example.", i)
+			resp, _, err := kit.Ask(h, kit.Query{Name: name, Type: 16, Class: 1, MaxAns: 1}, kit.Client{Resolver: "192.0.2.9"})
+			want := map[string]bool{}
+			for j := 0; j < per; j++ {
+				want[fmt.Sprintf("t%d-%d", i, j)] = true
+			}
+			got := map[string]bool{}
+			n := 0
+			if resp != nil {
+				for _, rr := range resp.Answer {
+					if x, ok := rr.(*dns.TXT); ok {
+						got[strings.Join(x.Txt, "")] = true
+						n++
+					}
+				}
+			}
+			if err != nil || resp == nil || n != per || len(got) != per || fmt.Sprint(keys(got)) != fmt.Sprint(keys(want)) {
+				cs.Name = name
+				h.Close()
+				_ = os.RemoveAll(dir)
+				kit.Fail(t, "C01", "answer-set/bulk/"+b.String(), cs, "%s TXT after a builder compile of %d records: got %d records %v, the file declares %v (%v)", name, names*per, n, keys(got), keys(want), err)
+			}
+		}
+		h.Close()
+		_ = os.RemoveAll(dir)
+	}
 }
